@@ -118,23 +118,12 @@ PROPS["C26"] = {
     "enc": ["FreeList::alloc", "alloc_from_unit", "free", "size", "initialize_heap", "add_to_free", "__alloc", "__split", "__coalesce", "__remove_from_free",
             "get/set_next/prev/size/free", "get_left", "get_right", "is_coalescable", "set_uncoalescable", "IntArrayFreeList::{new, from_parent, table, table_mut}"],
     "sym": "single list (6 or 3 units, one initial run): 3 operations, each alloc(n in 1..=6) or free(any live run), then free-all and re-allocate; "
-           "parent+child lists sharing a 6-unit table, grain 1..=6: 3 operations on either list out of alloc(n), alloc_from_unit(n,u), free(run), set_uncoalescable(u)",
-    "bound": "Lists of <= 6 units, histories of 3 operations (+ free-all epilogue), <= 2 heads; unwind 8 with unwinding assertions. After every operation the real table is walked and must tile [0,units) consistently with the harness's live-run map.",
-    "outside": "longer lists/histories; RawMemoryFreeList shares every FreeList method (its growth path is C27); alloc-failure completeness is checked for the single-list configuration only",
-    "assumptions": COMMON_ASSUME + ["free is called on live runs only (its debug assertion)", "alloc_from_unit and set_uncoalescable are applied to the first unit of a run (as Map64 does)"],
-    "level_text": "Bounded symbolic execution (Kani/CBMC) of the real free-list code over every 3-operation history on lists of <= 6 units (single list, and parent+child lists sharing a table with symbolic grain and uncoalescable marks): allocated runs disjoint and in range, size() exact, alloc fails only without a fitting free run, the table always tiles the list consistently with the live runs, free runs fully coalesce, and freeing everything restores one allocatable run.",
+           "single 5-unit list with uncoalescable boundaries: 3 operations out of alloc(n), free(run), set_uncoalescable(first unit of a run)",
+    "bound": "Single-head lists of <= 6 units, histories of 3 operations (+ free-all epilogue); unwind 8 with unwinding assertions. After every operation the real table is walked and must tile [0,units) consistently with the harness's live-run map.",
+    "outside": "child lists sharing a parent table (from_parent) and alloc_from_unit: their harness exhausts 16 GB even for 4 units / 2 operations (kept as work in progress, not claimed); longer lists/histories; RawMemoryFreeList (C27, not applicable) shares every FreeList default method checked here",
+    "assumptions": COMMON_ASSUME + ["free is called on live runs only (its debug assertion)", "set_uncoalescable is applied to the first unit of a run (as Map64 does)"],
+    "level_text": "Bounded symbolic execution (Kani/CBMC) of the real free-list code over every 3-operation history on single-head lists of <= 6 units (with and without uncoalescable boundaries): allocated runs disjoint and in range, size() exact, alloc fails only without a fitting free run, the table always tiles the list consistently with the live runs, free runs fully coalesce, and freeing everything restores one allocatable run.",
     "level_note": "Trusted: Kani/CBMC/cadical and the ghost live-run map of the harness.",
-}
-
-PROPS["C27"] = {
-    "enc": ["RawMemoryFreeList::new", "grow_freelist", "grow_list_by_blocks", "raise_high_water", "current_capacity", "units_per_block", "units_in_first_block", "size_in_pages",
-            "mmap (OS::dzmmap stubbed)", "FreeList::{alloc, set_sentinel, set_size, add_to_free}"],
-    "sym": "units 1..=1534 (table of 1..=3 pages), pages_per_block 1..=2, grain, two growth steps (multiples of the grain, <= 4 grains each) plus one over-limit request; limit = base + pages(size_in_pages) as Map64::create_parent_freelist computes it",
-    "bound": "Tables of <= 3 pages in a real page-aligned buffer, heads = 1, <= 2 successful growth steps, <= 8 allocations afterwards; unwind 10.",
-    "outside": "larger tables, heads > 1, more growth steps",
-    "assumptions": COMMON_ASSUME + ["E5: OS::dzmmap stubbed to record (start, bytes) and succeed", "growth sizes are multiples of the grain (grow_list_by_blocks' debug assertion)"],
-    "level_text": "Bounded symbolic execution (Kani/CBMC) of the real RawMemoryFreeList growth path over all unit counts whose table needs <= 3 pages (including table sizes that are not a multiple of the block size), block sizes, grains and two-step growth sequences: growth within the maximum succeeds, beyond it is refused, every mapping lies inside [base, limit) contiguously, and every grown unit can be allocated.",
-    "level_note": "Trusted: Kani/CBMC/cadical, the dzmmap stub.",
 }
 
 PROPS["C31"] = {
@@ -191,13 +180,13 @@ PROPS["C18"] = {
 }
 
 PROPS["C22"] = {
-    "enc": ["SideMetadataSpec::find_prev_non_zero_value", "find_prev_non_zero_value_fast", "find_prev_non_zero_value_simple", "find_next_non_zero_value (+_fast, +_simple)", "scan_non_zero_values (+_fast)",
-            "find_last/first_non_zero_bit_in_metadata_bytes/bits", "scan_non_zero_bits_in_metadata_bytes/bits/word", "align_metadata_address", "contiguous_meta_address_to_address", "ranges::break_bit_range"],
+    "enc": ["SideMetadataSpec::find_prev_non_zero_value", "find_prev_non_zero_value_fast", "find_prev_non_zero_value_simple", "find_next_non_zero_value (+_fast, +_simple)",
+            "find_last/first_non_zero_bit_in_metadata_bytes/bits", "find_last/first_non_zero_bit", "align_metadata_address", "contiguous_meta_address_to_address", "ranges::break_bit_range"],
     "sym": "all bytes of a 3-byte table slice (24 one-bit regions of 8 bytes: the VO-bit shape), data address anywhere in the slice's data range including unaligned, search limit, mapped/unmapped",
     "bound": "3-byte table window (24 regions), unwind 26 (+ per-loop bounds 5 on the byte loops) with unwinding assertions; byte and bit paths of the fast search (the 8-byte word path needs >= 8 aligned table bytes and is outside this bound).",
-    "outside": "the word-at-a-time path of the fast search (window of >= 8 bytes did not finish within the cap); widths other than 1 bit; searches that leave the window; metadata mapped for only part of the range",
+    "outside": "scan_non_zero_values (its harness exhausts 16 GB even on a 3-byte bitmap: kept as work in progress, not claimed); the word-at-a-time path of the fast search (a window of >= 8 bytes did not finish within 15 min); widths other than 1 bit; searches that leave the window; metadata mapped for only part of the range",
     "assumptions": COMMON_ASSUME + ["E1 base hook; E2: Address::load redirected to a static 64-byte buffer (array read); E3: Address::is_mapped answers from harness ranges (data range and table both mapped, or both unmapped)", "search range stays inside the window; scan ranges are region aligned"],
-    "level_text": "Bounded symbolic execution (Kani/CBMC) of the real search/scan entry points (fast path and the in-code naive cross-check) on a 3-byte bitmap with arbitrary contents, start address and limit, compared with an independent region-by-region oracle: same result / same visited regions in order, once each.",
+    "level_text": "Bounded symbolic execution (Kani/CBMC) of the real find_prev / find_next entry points (fast path plus the in-code naive cross-check) on a 3-byte bitmap with arbitrary contents, start address (aligned or not) and limit, compared with an independent region-by-region oracle: same result. scan_non_zero_values and the word-at-a-time path are outside the claim.",
     "level_note": "Small window: byte/bit paths only.",
 }
 
@@ -249,6 +238,7 @@ NOT_APPLICABLE.update({
 NOT_APPLICABLE.update({
     "C08": "kernel not built: find_object_from_internal_pointer / is_vo_bit_set_for_addr reduce to SideMetadataSpec::find_prev_non_zero_value, whose encoding only finishes on a 3-byte bitmap (C22: ~6 min per query); the object-size dimension on top of it did not fit the budget, and the space-level dispatch (SFT_MAP.get_checked(addr).is_mmtk_object, LOS page-wise variant) needs live spaces",
     "C10": "the retry-loop kernel (Allocator::alloc_slow_inline) needs an AllocatorContext with Arc<Options> and Arc<GCTrigger>; Options::default() goes through env-var/String parsing (DESIGN P11: does not encode) and GCTrigger::new needs a boxed policy from Options; Space::acquire/poll need a space with a page resource",
+    "C27": "measured: RawMemoryFreeList addresses its table through a slice built with from_raw_parts_mut over an integer-derived pointer (base Address -> *mut i32); with the real 4 KiB page size the smallest table is 1024 entries and the case that matters (table size not a multiple of the block size) needs 3 pages; even the 6-unit harness exhausted 16 GB and then 44 GB in CBMC's propositional reduction (harness kept as work-in-progress, not claimed). The shared FreeList alloc/free logic is decided under C26 on IntArrayFreeList. Observed by reading, not decided by any check: raise_high_water computes `self.high_water - self.limit` (operands reversed) when the last block would cross the limit",
     "C28": "page resources need CommonPageResource + a VMMap and (FreeListPageResource) a RawMemoryFreeList table: the free-list table alone exhausts 16 GB per query unless every size is concrete (C26/C27), and MonotonePageResource::alloc_pages goes through the global MMAPPER/VM_MAP singletons and Mutex-protected state; BlockPageResource sits on BlockPool (DESIGN P17: 22 GB)",
     "C29": "Map32 keeps two Vec<i32> link tables, a descriptor Vec and two IntArrayFreeLists behind a Mutex and calls the global SFT_MAP (InitializeOnce<Box<dyn SFTMap>>, AtomicU128 entries: inline asm not executable by Kani) on every free; the free-list component alone is at the memory limit for 6 units / 3 operations (C26), so histories over the composed structure are out of reach",
     "C37": "DESIGN P19: the two-block / two-object formulation of ForwardingMetadata did not finish in 14 min at 5 GB (the bit-scan loop is unrolled to the global bound at every call site); the planned split formulation was not built in the available time",
